@@ -20,6 +20,42 @@ def metaName (ty : Nat) : Option String :=
   | 1 => some "TEXT" | 2 => some "COPYRIGHT" | 3 => some "TRACK_NAME" | 4 => some "INSTRUMENT_NAME"
   | 5 => some "LYRIC" | 6 => some "MARKER" | 7 => some "CUE_POINT" | _ => none
 
+def isCont (c : Nat) : Bool := 0x80 ≤ c && c ≤ 0xBF
+
+/-- strict UTF-8 decoding (no overlong forms, no surrogates, nothing above U+10FFFF), as `String::from_utf8` decides it -/
+def utf8Strict : Nat → List Nat → Option (List Nat)
+  | 0, _ => none
+  | _, [] => some []
+  | f+1, b :: r =>
+    if b < 0x80 then (utf8Strict f r).map (b :: ·)
+    else if 0xC2 ≤ b ∧ b ≤ 0xDF then
+      match r with
+      | c :: r' => if isCont c then (utf8Strict f r').map (((b % 32) * 64 + c % 64) :: ·) else none
+      | _ => none
+    else if 0xE0 ≤ b ∧ b ≤ 0xEF then
+      match r with
+      | c :: d :: r' =>
+        let lo := if b = 0xE0 then 0xA0 else 0x80
+        let hi := if b = 0xED then 0x9F else 0xBF
+        if lo ≤ c ∧ c ≤ hi ∧ isCont d then (utf8Strict f r').map (((b % 16) * 4096 + (c % 64) * 64 + d % 64) :: ·) else none
+      | _ => none
+    else if 0xF0 ≤ b ∧ b ≤ 0xF4 then
+      match r with
+      | c :: d :: e :: r' =>
+        let lo := if b = 0xF0 then 0x90 else 0x80
+        let hi := if b = 0xF4 then 0x8F else 0xBF
+        if lo ≤ c ∧ c ≤ hi ∧ isCont d ∧ isCont e then
+          (utf8Strict f r').map (((b % 8) * 262144 + (c % 64) * 4096 + (d % 64) * 64 + e % 64) :: ·) else none
+      | _ => none
+    else none
+
+/-- the payload of a text-like meta event as the dump shows it: the UTF-8 text when the bytes are valid UTF-8, otherwise every byte as
+    the character with that code (so that different payloads stay different on the page) -/
+def payloadText (d : List Nat) : String :=
+  match utf8Strict (d.length + 1) d with
+  | some cs => String.ofList (cs.map Char.ofNat)
+  | none => String.ofList (d.map Char.ofNat)
+
 /-- the essential part of a dump line for a message (trailing explanatory comments excluded);
     `none` = no requirement on the text beyond the position (payload rendering of unusual metas) -/
 def descOf (status : Nat) : Msg → Option String
@@ -34,9 +70,10 @@ def descOf (status : Nat) : Msg → Option String
   | .metaM 0x51 [a, b, c] => if a * 65536 + b * 256 + c = 0 then none else some s!"Tempo={60000000 / (a * 65536 + b * 256 + c)}"
   | .metaM 0x58 (nn :: dd :: _) => some s!"TimeSig={nn}/{2 ^ dd}"
   | .metaM ty d =>
-      match metaName ty with
-      | some nm => if d.all (· < 128) then some (nm ++ "{" ++ String.ofList (d.map Char.ofNat) ++ "};") else none
-      | none => none
+      if ty = 0x51 ∨ ty = 0x58 ∨ ty = 0x2F ∨ d.length ≥ 128 ∨ d.any (fun b => b = 10 ∨ b = 13) then none
+      else match metaName ty with
+      | some nm => some (nm ++ "{" ++ payloadText d ++ "};")
+      | none => some ("// Meta Type=$" ++ hex2 ty ++ s!" Length={d.length} Text=" ++ "{" ++ payloadText d ++ "};")
   | .sysex d =>
       -- F0, then the length byte(s) shown as /*len:..*/ for the first one, then the payload
       if d.length < 128 then
